@@ -48,11 +48,11 @@ STD_ENUMS = {
     'core::task::poll::Poll': {'0': 'Ready', '1': 'Pending'},
 }
 
-Store = namedtuple('Store', 'S P T V len0 own resched sched pend S0')
+Store = namedtuple('Store', 'S P T V len0 own resched sched pend S0 pan')
 
 
 def mk_store(T='N', P=None):
-    return Store(S=None, P=P, T=T, V=(), len0='?', own='?', resched=0, sched=0, pend=0, S0=None)
+    return Store(S=None, P=P, T=T, V=(), len0='?', own='?', resched=0, sched=0, pend=0, S0=None, pan=0)
 
 
 def vget(st, l):
@@ -128,8 +128,6 @@ class Bindings:
                 o, e = self._res((b[1], b[2]), seen)
                 out |= o
                 ext = ext or e
-        if not self.b.get(key) and key not in self.external:
-            ext = True  # unbound: unknown code
         return out, ext
 
 
@@ -447,7 +445,8 @@ class Proto:
             enums = tuple(sorted(set(v[1] for l, v in st.V if v and v[0] == 'enum' and self._is_local_enum(fn, l))))
             self.events[('region_exit', fn.name, '')].add((st.S, st.T, enums, st.len0, st.own, st.S0 if st.S0 is not None else st.S))
         P = st.S if st.T == 'H' else None
-        return st._replace(S=None, P=P, len0='?', own='?', S0=None)
+        pan = 1 if (st.S == frozenset(['Panicked']) and st.T == 'N') else st.pan
+        return st._replace(S=None, P=P, len0='?', own='?', S0=None, pan=pan)
 
     def _is_local_enum(self, fn, l):
         a = self.facts.adts.get(ty_head(fn.local_ty(l)))
@@ -696,6 +695,7 @@ class Proto:
             if st.pend:
                 self.viol.append(('TOK-requeue', fn.name, 'returns while a job that returned Pending has not been put back', fn.loc(bb)))
             self.events[('exit', fn.name, '')].add((st.T, ret))
+            self.events[('exit_pan', fn.name, '')].add((st.pan, ret))
 
     def _switch(self, fn, bb, t, st):
         d = t['discr']
@@ -939,6 +939,8 @@ class Proto:
         if name.endswith('::VecDeque::pop_front') or name.endswith('::VecDeque::pop_back') or name.endswith('::VecDeque::clear'):
             e = fn.expr_of_operand(args[0])
             if self.is_queue_place_expr(e):
+                if record:
+                    self.events[('pop', fn.name, name.split('::')[-1])].add((st.S if st.S is not None else self.ALL, st.T))
                 return done(st._replace(len0='?'), None)
             return done(st, None)
         if name in ('core::option::Option::is_none', 'core::option::Option::is_some'):
@@ -960,6 +962,8 @@ class Proto:
         if name.endswith('JobQueue::requeue'):
             return done(st._replace(pend=0), None)
         if name in ('std::panicking::begin_panic', 'core::panicking::panic', 'core::panicking::panic_fmt'):
+            if record:
+                self.events[('panic', fn.name, '')].add(st.pan)
             return []
 
         # in-crate callees with summaries
